@@ -267,6 +267,41 @@ def aborted_client_and_frame_cache(S, rnd, windex, cnt, res):
             return
 
 
+def handler_throws_before_output(S, rnd, windex, cnt, res):
+    """a handler that has set headers (a length, a type, an encoding) and then throws before writing anything: the framework's error page
+    goes out in its place - under one header block that frames THAT page, so that a kept-alive connection stays usable"""
+    hdrs = [(b"Content-Length", b"1000"), (b"Content-Type", b"application/json"), (b"Content-Encoding", b"gzip"), (b"X-Other", b"v"), (b"Content-Length", b"3")]
+    for variant in range(windex % 2, 10, 2):
+        is_async = variant >= 5
+        hn, hv = hdrs[variant % 5]
+        app = b"/awriter" if is_async else b"/writer"
+        q = b"s=h%s.%s,X" % (hn.hex().encode(), hv.hex().encode())
+        tok = b"EX%d-%d" % (windex, variant)
+        first = proto.Req(method=b"GET", script=app, query=q + b"&tok=" + tok, token=tok)
+        second = proto.Req(method=b"GET", script=b"/writer", query=b"s=w10.1&tok=" + tok + b"n", token=tok + b"n")
+        c = srv.Conn(S, "http", timeout=10)
+        try:
+            c.send(proto.http_encode(first, version=b"1.1", keep_alive=True))
+            m1, closed = c.recv_until(srv.http_message_length, timeout=6)
+            rp = {"first": q.decode(), "async": is_async}
+            d1 = proto.http_parse_response(m1) if m1 else {"status": None, "errors": ["no response"], "hd": {}}
+            cnt("handler_exception_rounds")
+            if d1["status"] != 500 or d1["errors"] or d1.get("rest"):
+                res["viol"].append({"key": "c03:error-page-for-a-throwing-handler-is-not-framed", "detail": "handler set %s: %s and threw; answer: status %r errors %r raw %r" % (hn.decode(), hv.decode(), d1["status"], d1["errors"][:2], m1[:200]), "replay": rp})
+                return
+            if closed:
+                cnt("handler_exception_rounds_connection_closed")
+                continue
+            c.send(proto.http_encode(second, version=b"1.1", keep_alive=False))
+            m2, _ = c.recv_all(10)
+        finally:
+            c.close()
+        d2 = proto.http_parse_response(m2)
+        if d2["status"] != 200 or d2["errors"] or d2["body"] != pat(1, 10):
+            res["viol"].append({"key": "c03:request-after-a-throwing-handler-on-the-same-connection-not-served", "detail": "status %r errors %r body %r" % (d2["status"], d2["errors"][:2], d2["body"][:40]), "replay": rp})
+            return
+
+
 def keepalive_header_isolation(S, rnd, windex, cnt, res):
     """on one kept-alive HTTP connection: a request whose response carries a cookie and a header, then requests served in raw /
     asynchronous_raw mode whose application writes no header block, an unterminated one, or a complete one: every response must carry
@@ -322,6 +357,8 @@ def worker(args):
         if grouping:
             cnt("servers_with_a_grouping_global_locale")
         keepalive_header_isolation(S, rnd, windex, cnt, res)
+        if not res["viol"]:
+            handler_throws_before_output(S, rnd, windex, cnt, res)
         if not res["viol"]:
             aborted_client_and_page_cache(S, rnd, windex, cnt, res)
         if not res["viol"]:
@@ -503,4 +540,5 @@ def run(ck):
               "independent de-framers validate framing strictly and the body (gunzipped if needed) must equal the concatenation of the writes; page-cache copies must be byte-identical to what was sent and vanish when "
               "their trigger is raised. non-trivial = distinct (protocol, app kind, mode, gzip, schedule kind, cache, >64K) shapes",
               "responses", "shapes", min_evals=1500,
-              required_nonzero=("bytes_compared", "gzip_responses", "chunked_responses", "cached_pages_compared", "short_writes_injected", "would_block_injected", "fastcgi_bodies_over_65535", "cache_hits_seen_by_app", "raw_mode_responses"))
+              required_nonzero=("bytes_compared", "gzip_responses", "chunked_responses", "cached_pages_compared", "short_writes_injected", "would_block_injected", "fastcgi_bodies_over_65535", "cache_hits_seen_by_app", "raw_mode_responses",
+                                "handler_exception_rounds", "aborted_client_page_rounds", "aborted_client_page_rounds_through_filters", "aborted_client_page_rounds_with_a_frame", "aborted_client_frame_rounds", "servers_with_a_grouping_global_locale"))
